@@ -268,3 +268,176 @@ pub proof fn lemma_whitened_leapfrog_is_xspace(d: DV, x: Seq<real>, v: Seq<real>
     assert(dv_coord(d, i));
     lemma_whitened_step_coord(x[i], v[i], g[i], g1[i], d.mean[i], d.std[i], d.inv[i], eps);
 }
+
+/// the pull-back is the transposed Jacobian of the INVERSE map: moving z by h along axis j moves x_i by
+/// h*std_i if i == j and not otherwise (dx/dz = diag(std)), and pull(g)_i = g_i * std_i = ((dx/dz)^T g)_i
+// [C02.5]
+pub proof fn lemma_diag_pull_is_jacobian_t(d: DV, z: Seq<real>, g: Seq<real>, j: int, h: real, i: int)
+    requires 0 <= i < z.len(), 0 <= j < z.len(), g.len() == z.len()
+    ensures diag_inv(d, z.update(j, z[j] + h))[i] - diag_inv(d, z)[i] == (if i == j { h * d.std[i] } else { 0real }),
+            diag_pull(d, g)[i] == g[i] * d.std[i]
+{
+    if i == j {
+        assert((z[i] + h) * d.std[i] + d.mean[i] - (z[i] * d.std[i] + d.mean[i]) == h * d.std[i]) by(nonlinear_arith);
+    }
+}
+
+// =====================================================================================
+// [C02.6] the low-rank transformation: order / role facts against an UNINTERPRETED kernel
+//   L(d) v := lowrank_s(U, d, v) = (I + U (diag d - I) U^T) v
+// =====================================================================================
+/// numeric content of InnerMatrix: U, lambda^{1/2}, lambda^{-1/2}, mu, logdet contribution
+pub struct IV { pub vecs: Seq<Seq<real>>, pub vs: Seq<real>, pub vsi: Seq<real>, pub mu: Seq<real>, pub ldc: real }
+pub struct LV { pub d: DV, pub inner: Option<IV>, pub logdet: real }
+pub open spec fn iv<M: Math>(n: InnerMatrix<M>) -> IV {
+    IV { vecs: M::evecs(&n.vecs), vs: M::evals(&n.vals_sqrt), vsi: M::evals(&n.vals_sqrt_inv), mu: M::vv(&n.mu), ldc: n.logdet_contribution.r() }
+}
+pub open spec fn lv<M: Math>(t: LowRankMassMatrix<M>) -> LV {
+    LV { d: dv(t.diag), inner: match t.inner { Some(n) => Some(iv(n)), None => None }, logdet: t.logdet.r() }
+}
+pub uninterp spec fn flat_s(m: Seq<Seq<real>>) -> Seq<real>;
+pub open spec fn lr_view<M: Math>(t: LowRankMassMatrix<M>) -> TransView {
+    let l = lv(t);
+    TransView { id: t.id as int,
+                params: dm_view(t.diag).params + seq![l.logdet]
+                        + (match l.inner { Some(n) => n.vs + n.vsi + n.mu + seq![n.ldc] + flat_s(n.vecs), None => Seq::<real>::empty() }) }
+}
+
+/// from the property (x = F y + mu with F = diag(std) L(lambda^{1/2})):
+///   z = L(lambda^{-1/2}) ( (x - mean) (.) inv_std  -  mu )         centring, scaling, mu shift, THEN inverse spectral scaling
+///   x = ( L(lambda^{1/2}) z + mu ) (.) std + mean                  the same steps undone in reverse order
+///   g_z = L(lambda^{1/2}) ( g_x (.) std )                          (dx/dz)^T g_x, L symmetric
+pub open spec fn lr_fwd(l: LV, x: Seq<real>) -> Seq<real> {
+    let y = diag_fwd(l.d, x);
+    match l.inner { None => y, Some(n) => lowrank_s(n.vecs, n.vsi, sub_s(y, n.mu)) }
+}
+pub open spec fn lr_inv(l: LV, z: Seq<real>) -> Seq<real> {
+    match l.inner { None => diag_inv(l.d, z), Some(n) => diag_inv(l.d, add_s(lowrank_s(n.vecs, n.vs, z), n.mu)) }
+}
+pub open spec fn lr_pull(l: LV, g: Seq<real>) -> Seq<real> {
+    match l.inner { None => diag_pull(l.d, g), Some(n) => lowrank_s(n.vecs, n.vs, diag_pull(l.d, g)) }
+}
+pub open spec fn iv_coord(n: IV, i: int) -> bool { coord_ok(n.vs[i], n.vsi[i]) }
+/// representation invariant: diagonal part wf; the two scalings are positive reciprocals of each other;
+/// logdet = diag.logdet + sum_i ln lambda_i^{-1/2}   ( = ln|det diag(inv_std)| + ln|det L(lambda^{-1/2})| )
+pub open spec fn lr_wf(l: LV) -> bool {
+    &&& dv_wf(l.d)
+    &&& match l.inner {
+        None => l.logdet == l.d.logdet,
+        Some(n) => {
+            &&& n.vs.len() == n.vsi.len()
+            &&& forall|i: int| 0 <= i < n.vs.len() ==> #[trigger] iv_coord(n, i)
+            &&& n.ldc == sum_ln(n.vsi)
+            &&& l.logdet == n.ldc + l.d.logdet
+        },
+    }
+}
+
+pub proof fn lemma_ln_recip(a: real)
+    requires a > 0real
+    ensures 1real / a > 0real, ln_r(1real / a) == -ln_r(a)
+{
+    lemma_div_sign(1real, a);
+    lemma_div_cancel(1real, a);
+    assert(a * (1real / a) == 1real) by(nonlinear_arith) requires (1real / a) * a == 1real;
+    lemma_ln_mul(a, 1real / a);
+    lemma_ln_one();
+}
+pub proof fn lemma_ln_sqrt(a: real)
+    requires a > 0real
+    ensures sqrt_r(a) > 0real, 2real * ln_r(sqrt_r(a)) == ln_r(a)
+{
+    lemma_sqrt_pair(a);
+    ax_sqrt(a);
+    lemma_ln_mul(sqrt_r(a), sqrt_r(a));
+}
+/// what `InnerMatrix::new` stores (A-faer-inner) satisfies the invariant:  sum_i ln lambda_i^{-1/2} == -1/2 sum_i ln lambda_i
+// [C02.6]
+pub proof fn lemma_inner_ok(lam: Seq<real>)
+    requires all_pos(lam)
+    ensures
+        forall|i: int| 0 <= i < lam.len() ==> #[trigger] coord_ok(sqrt_s(lam)[i], recip_s(sqrt_s(lam))[i]),
+        sum_ln(recip_s(sqrt_s(lam))) == -(sum_ln(lam) / 2real),
+    decreases lam.len()
+{
+    assert forall|i: int| 0 <= i < lam.len() implies coord_ok(sqrt_s(lam)[i], recip_s(sqrt_s(lam))[i]) by {
+        assert(lam[i] > 0real);
+        lemma_sqrt_pair(lam[i]);
+        let s = sqrt_r(lam[i]);
+        assert(sqrt_s(lam)[i] == s && recip_s(sqrt_s(lam))[i] == 1real / s);
+        lemma_div_cancel(1real, s);
+        assert(s * (1real / s) == 1real) by(nonlinear_arith) requires (1real / s) * s == 1real;
+    }
+    if lam.len() > 0 {
+        let p = lam.drop_last();
+        assert(all_pos(p)) by { assert forall|i: int| 0 <= i < p.len() implies #[trigger] p[i] > 0real by { assert(p[i] == lam[i]); } }
+        lemma_inner_ok(p);
+        assert(recip_s(sqrt_s(lam)).drop_last() =~= recip_s(sqrt_s(p)));
+        let a = lam.last();
+        assert(a == lam[lam.len() - 1]);
+        assert(recip_s(sqrt_s(lam)).last() == 1real / sqrt_r(a));
+        lemma_ln_sqrt(a);
+        lemma_ln_recip(sqrt_r(a));
+    }
+}
+
+/// [C02.6] round trip 1, GIVEN A-lowrank  L(lambda^{1/2}) L(lambda^{-1/2}) w = w  for the centred, scaled point w
+// [C02.6]
+pub proof fn lemma_lr_roundtrip_x(l: LV, x: Seq<real>)
+    requires
+        lr_wf(l), x.len() == l.d.std.len(),
+        // A-lowrank (explicit assumption, true for orthonormal U; matrix algebra is not machine-checked)
+        l.inner is Some ==> ({ let n = l.inner->Some_0; let w = sub_s(diag_fwd(l.d, x), n.mu);
+                               lowrank_s(n.vecs, n.vs, lowrank_s(n.vecs, n.vsi, w)) == w }),
+    ensures lr_inv(l, lr_fwd(l, x)) == x
+{
+    lemma_diag_roundtrip_x(l.d, x);
+    match l.inner {
+        None => {},
+        Some(n) => {
+            let y = diag_fwd(l.d, x);
+            let w = sub_s(y, n.mu);
+            assert(add_s(w, n.mu) =~= y);
+        },
+    }
+}
+/// [C02.6] round trip 2, GIVEN A-lowrank  L(lambda^{-1/2}) L(lambda^{1/2}) z = z  and that L preserves the length
+// [C02.6]
+pub proof fn lemma_lr_roundtrip_z(l: LV, z: Seq<real>)
+    requires
+        lr_wf(l), z.len() == l.d.std.len(),
+        l.inner is Some ==> ({ let n = l.inner->Some_0;
+                               lowrank_s(n.vecs, n.vsi, lowrank_s(n.vecs, n.vs, z)) == z && lowrank_s(n.vecs, n.vs, z).len() == z.len() }),
+    ensures lr_fwd(l, lr_inv(l, z)) == z
+{
+    match l.inner {
+        None => { lemma_diag_roundtrip_z(l.d, z); },
+        Some(n) => {
+            let w = lowrank_s(n.vecs, n.vs, z);
+            let t = add_s(w, n.mu);
+            lemma_diag_roundtrip_z(l.d, t);
+            assert(sub_s(t, n.mu) =~= w);
+        },
+    }
+}
+/// det L(d) for orthonormal U -- uninterpreted; A-lowrank-det: it equals the product of d (matrix algebra, not checked)
+pub uninterp spec fn lowrank_det(vecs: Seq<Seq<real>>, vals: Seq<real>) -> real;
+/// [C02.6] sign/role of the log-determinant: dz/dx = L(lambda^{-1/2}) diag(inv_std), so
+/// ln|det dz/dx| = sum ln inv_std_i + sum ln lambda_i^{-1/2}  ( = diag.logdet - 1/2 sum ln lambda, lemma_inner_ok ),
+/// GIVEN det L(d) = prod d (A-lowrank-det) and multiplicativity of det (cited)
+// [C02.6]
+pub proof fn lemma_lr_logdet(l: LV)
+    requires lr_wf(l), l.inner is Some,
+             lowrank_det(l.inner->Some_0.vecs, l.inner->Some_0.vsi) == prod_s(l.inner->Some_0.vsi),
+    ensures l.logdet == ln_r(abs_r(lowrank_det(l.inner->Some_0.vecs, l.inner->Some_0.vsi) * prod_s(l.d.inv)))
+{
+    let n = l.inner->Some_0;
+    lemma_diag_logdet(l.d);
+    assert forall|i: int| 0 <= i < n.vsi.len() implies #[trigger] n.vsi[i] > 0real by {
+        assert(iv_coord(n, i));
+        lemma_inv_pos(n.vs[i], n.vsi[i]);
+    }
+    lemma_sum_ln_prod(n.vsi);
+    lemma_mul_sign(prod_s(n.vsi), prod_s(l.d.inv));
+    lemma_ln_mul(prod_s(n.vsi), prod_s(l.d.inv));
+}
